@@ -104,12 +104,22 @@ def _mapped_decision(ctx: Ctx, f: FuncInfo, mapped_calls: tuple[str, ...]) -> st
     nodes = cfg.nodes(lambda s: not isinstance(s, (ast.If, ast.For, ast.While)) and any(isinstance(c, ast.Call) and dotted(c.func) in mapped_calls for c in ast.walk(s)))
     if not nodes:
         return None
-    parts = []
-    for test, truth in cfg.controls(nodes[0]):
-        t = inline_predicates(ctx, f, Defs(f).resolve(test))
-        if "mapspec" in norm(t):
-            parts.append(nnf(t, neg=not truth))
-    return " and ".join(parts) if parts else None
+    decisions: list[str] = []
+    for n in nodes:
+        parts: list[str] = []
+        negated: set[str] = set()
+        for test, truth in cfg.controls(n):
+            t = inline_predicates(ctx, f, Defs(f).resolve(test))
+            if "mapspec" in norm(t):
+                here = nnf(t, neg=not truth)
+                negated.add(nnf(t, neg=truth))
+                if here not in parts:
+                    parts.append(here)
+        if any(p_ in negated for p_ in parts):
+            continue  # the same test decided both ways on the way here (a helper inlined into one arm of its own test): not a path
+        if parts and " and ".join(parts) not in decisions:
+            decisions.append(" and ".join(parts))
+    return " or ".join(decisions) if decisions else None
 
 
 def rule_whole_arrays(ctx: Ctx) -> None:
